@@ -257,4 +257,106 @@ theorem setInitial_indep (c : Config α) (prev1 prev2 : State α) (fin : Bool) (
   unfold setInitialDefect
   rfl
 
+/-- complete decision list of `_analyse_defect`, in the order of the tests in the code: non-finite → `aborted`;
+    diverged → `diverged`; fewer than `min_iter` iterations → `progress`; converged → `success`;
+    `max_iter` reached → `max_iter`; stagnation control → `stagnated` / `progress` -/
+theorem analyse_precedence (c : Config α) (s s' : State α) (chk : Bool) (st : Status)
+    (h : analyseDefect c s chk = (st, s')) :
+    (s.curFin = false → st = .aborted) ∧
+    (s.curFin = true → Diverged c s.defInit s.defCur → st = .diverged) ∧
+    (s.curFin = true → ¬ Diverged c s.defInit s.defCur → s.numIter < c.minIter → st = .progress) ∧
+    (s.curFin = true → ¬ Diverged c s.defInit s.defCur → c.minIter ≤ s.numIter →
+      Converged c s.defInit s.defCur → st = .success) ∧
+    (s.curFin = true → ¬ Diverged c s.defInit s.defCur → c.minIter ≤ s.numIter →
+      ¬ Converged c s.defInit s.defCur → c.maxIter ≤ s.numIter → st = .maxIter) ∧
+    (s.curFin = true → ¬ Diverged c s.defInit s.defCur → c.minIter ≤ s.numIter →
+      ¬ Converged c s.defInit s.defCur → s.numIter < c.maxIter →
+      (st = .stagnated ↔ chk = true ∧ 0 < c.minStag ∧ c.stagRate * s.defPrev ≤ s.defCur ∧
+        c.minStag ≤ s.numStag + 1) ∧ (st = .stagnated ∨ st = .progress)) := by
+  unfold analyseDefect at h
+  rw [← isConverged_iff, ← isDiverged_iff]
+  repeat' split at h
+  all_goals (simp only [Prod.mk.injEq] at h; obtain ⟨rfl, rfl⟩ := h)
+  all_goals simp_all
+  all_goals omega
+
+/-- the last status of a `feed` is the outcome of one control step that produced the final state -/
+theorem feed_last_step (c : Config α) (upd : Bool) (ds : List (Bool × α)) :
+    ∀ (s : State α) (tr : List α) (stl : Status), (feed c upd .progress s tr ds).1.getLast? = some stl →
+      ∃ (s0 : State α) (fin : Bool) (d : α),
+        ctlStep c upd s0 fin d = (stl, (feed c upd .progress s tr ds).2.1) := by
+  induction ds with
+  | nil => intro s tr stl h; simp [feed] at h
+  | cons a ds ih =>
+    obtain ⟨fin, d⟩ := a
+    intro s tr stl hlast
+    rw [feed_cons] at hlast ⊢
+    simp only [ne_eq, not_true_eq_false, ↓reduceIte] at hlast ⊢
+    generalize hr : ctlStep c upd s fin d = r at hlast ⊢
+    obtain ⟨st1, s1⟩ := r
+    simp only at hlast ⊢
+    by_cases hp : st1 = .progress
+    · subst hp
+      cases hrest : (feed c upd .progress s1 (s1.defCur :: tr) ds).1 with
+      | nil =>
+        rw [hrest] at hlast
+        simp only [List.getLast?_singleton, Option.some.injEq] at hlast
+        subst hlast
+        rw [feed_nil_out c upd _ _ _ _ hrest]
+        exact ⟨s, fin, d, hr⟩
+      | cons b l =>
+        rw [hrest] at hlast
+        have hl : (feed c upd .progress s1 (s1.defCur :: tr) ds).1.getLast? = some stl := by
+          rw [hrest]; simpa [List.getLast?_cons_cons] using hlast
+        exact ih s1 _ stl hl
+    · rw [feed_nonprogress c upd st1 s1 _ ds hp] at hlast ⊢
+      simp only [List.getLast?_singleton, Option.some.injEq] at hlast
+      subst hlast
+      exact ⟨s, fin, d, hr⟩
+
+theorem ctlStep_numIter (c : Config α) (upd : Bool) (s s' : State α) (fin : Bool) (d : α) (st : Status)
+    (h : ctlStep c upd s fin d = (st, s')) :
+    s'.numIter = s.numIter + 1 ∧ (st = .progress → s'.numIter < max c.minIter c.maxIter) := by
+  obtain ⟨s2, he, hn, _, _, _⟩ := ctlStep_eq c upd s fin d
+  rw [he] at h
+  have hf := analyse_frame c _ _ _ _ h
+  refine ⟨by omega, fun hp => ?_⟩
+  subst hp
+  have := analyse_progress_bound c _ _ _ h
+  omega
+
+/-- iteration count at the end of a `feed` that started with fewer than `max(min_iter, max_iter)` iterations (or none) -/
+theorem feed_numIter_le (c : Config α) (upd : Bool) (ds : List (Bool × α)) :
+    ∀ (s : State α) (tr : List α) (stl : Status),
+      (s.numIter < max c.minIter c.maxIter ∨ s.numIter = 0) →
+      (feed c upd .progress s tr ds).1.getLast? = some stl →
+      (feed c upd .progress s tr ds).2.1.numIter ≤ max 1 (max c.minIter c.maxIter) ∧
+        0 < (feed c upd .progress s tr ds).2.1.numIter := by
+  induction ds with
+  | nil => intro s tr stl _ h; simp [feed] at h
+  | cons a ds ih =>
+    obtain ⟨fin, d⟩ := a
+    intro s tr stl hs hlast
+    rw [feed_cons] at hlast ⊢
+    simp only [ne_eq, not_true_eq_false, ↓reduceIte] at hlast ⊢
+    generalize hr : ctlStep c upd s fin d = r at hlast ⊢
+    obtain ⟨st1, s1⟩ := r
+    simp only at hlast ⊢
+    have hn := ctlStep_numIter c upd s s1 fin d st1 hr
+    by_cases hp : st1 = .progress
+    · cases hrest : (feed c upd st1 s1 (s1.defCur :: tr) ds).1 with
+      | nil =>
+        rw [feed_nil_out c upd _ _ _ _ hrest]
+        simp only
+        omega
+      | cons b l =>
+        rw [hrest] at hlast
+        subst hp
+        have hl : (feed c upd .progress s1 (s1.defCur :: tr) ds).1.getLast? = some stl := by
+          rw [hrest]; simpa [List.getLast?_cons_cons] using hlast
+        exact ih s1 _ stl (Or.inl (hn.2 rfl)) hl
+    · rw [feed_nonprogress c upd st1 s1 _ ds hp]
+      simp only
+      omega
+
 end FeatModel.Solver
